@@ -795,3 +795,58 @@ def rule_implicit_attribute_errors(check, rule):
     check.holds(rule, '-', '%d reads of special attributes off foreign objects in the package, %d of them can reach the end of retrieval' % (n_sources, n),
                 key='implicit|inventory', nontrivial=False)
     check.floor(rule, 'reads of special attributes off foreign objects', n_sources, 10)
+
+
+def rule_sphinx_output(check, rule):
+    """C07.R5d: what the hook hands to autodoc on success is the pair (argument list as text, return annotation as text): autodoc joins
+    them with ' -> '.  So when the signature has a return annotation, the first element is the text of the signature *without* it
+    (`sig.replace(return_annotation=sig.empty)`), the second its repr; otherwise (text of the signature, '').  Both are strings."""
+    repo = check.repo
+    fi = repo.func('sphinxext:process_signature', required=False)
+    if fi is None:
+        raise Inconclusive('sphinxext.process_signature vanished')
+    check.analysed(fi)
+    from .interp import Interp, Policy, show, mentions, K as K_
+    it = Interp(repo, Policy(try_forks=False))
+    paths = it.run(fi)
+    n = 0
+    seen = set()
+    for p in paths:
+        if p.status != 'return' or p.value[0] != 'T' or len(p.value[1]) != 2:
+            continue
+        a, b = p.value[1]
+        if a[0] == 'P' and b[0] == 'P':
+            continue          # autodoc's own pair (fallback)
+        # does this path know that there is a return annotation?
+        has_ret = None
+        for atom, pol in p.lits:
+            if atom[0] in ('eq', 'is') and any(isinstance(x, tuple) and x[0] == 'A' and x[2] in ('empty', '_empty') for x in atom[1:]):
+                has_ret = not pol
+        key = 'process_signature|output|ret=%s' % has_ret
+        if key in seen:
+            continue
+        seen.add(key)
+        n += 1
+        node = [e for e in p.effects if e.kind == 'return'][-1].node
+        st = site_of(fi, node)
+        problems = []
+        if not (a[0] == 'C' and a[1] == 'str'):
+            problems.append('the first element is %s, not str(<signature>)' % show(a)[:50])
+        if has_ret is True:
+            arg = a[2][0] if (a[0] == 'C' and a[2]) else None
+            stripped = arg is not None and arg[0] == 'M' and arg[2] == 'replace' and any(k == 'return_annotation' and v[0] == 'A' and v[2] in ('empty', '_empty')
+                                                                                        for k, v in arg[4])
+            if not stripped:
+                problems.append('the signature is turned into text with its return annotation still on it: autodoc appends the second element after '
+                                '" -> " and the annotation shows up twice')
+            if b == K_('') or b[0] == 'P':
+                problems.append('the return annotation is not handed over as the second element')
+        elif has_ret is False:
+            if b != K_(''):
+                problems.append('without a return annotation the second element must be the empty string, found %s' % show(b)[:40])
+        if problems:
+            for m_ in problems[:2]:
+                check.violation(rule, st, 'process_signature: %s' % m_, key=key + '|' + m_[:30], witness="def f(a) -> int: the hook must return ('(a)', 'int')")
+        else:
+            check.holds(rule, st, 'the hook returns (text of the argument list, text of the return annotation or "")', key=key)
+    check.floor(rule, 'successful returns of the Sphinx hook', n, 2)
